@@ -207,3 +207,7 @@ class Session:
 
     def close(self):
         subprocess.run(["tmux", "-L", self.sock, "kill-server"], env=self.env, capture_output=True)
+        try:        # (a killed server leaves its socket behind; tens of thousands of them pile up under /tmp over a day of runs)
+            os.unlink(os.path.join(os.environ.get("TMUX_TMPDIR", "/tmp"), "tmux-%d" % os.getuid(), self.sock))
+        except OSError:
+            pass
